@@ -40,7 +40,7 @@ PROPS = {
                       J("^vhC10_conc(via)?_|^vhC05_conc_v1$", preempt=0, samples=1, only_msgs="overlapped", maxpaths=600000),
                       J("^vhC13_time_n1$|^vhC02_ctx_n1$", preempt=1, samples=2, timeshim=True, only_msgs="overlapped|grammar|after a terminal|never emitted")],
             "thorough": [J("^vhC02_core_2x2$", preempt=2, samples=6, maxpaths=4000000), J("^vhC02_core_3x1$", preempt=1, samples=3, maxpaths=2000000), J("^vhC10_conc(via)?_", preempt=1, samples=1, only_msgs="overlapped", maxpaths=3000000), J("^vhC05_conczip_v2$|^vhC05_conc_v1$", preempt=0, samples=1, only_msgs="overlapped", maxpaths=3000000),
-                         J("^vhC13_time_n2$|^vhC02_ctx_n2$", preempt=2, samples=2, timeshim=True, only_msgs="overlapped|grammar|after a terminal|never emitted", maxpaths=3000000)], "bounds": {"threads": 3, "preemptions_quick": 1, "preemptions_thorough": 2}, "assumptions": []},
+                         J("^vhC13_time_n2$|^vhC02_ctx_n2$", preempt=1, samples=2, timeshim=True, only_msgs="overlapped|grammar|after a terminal|never emitted", maxpaths=1500000), J("^vhC13_time_n1$|^vhC02_ctx_n1$", preempt=2, samples=2, timeshim=True, only_msgs="overlapped|grammar|after a terminal|never emitted", maxpaths=1500000)], "bounds": {"threads": 3, "preemptions_quick": 1, "preemptions_thorough": 2}, "assumptions": []},
     "C03": {"quick": [J("^vhC03_(sub_K3|cut_L2)$|^vhC03_multipanic$", samples=4), J("^vhC03_subconc_(2|3)$", preempt=0, samples=1), J("^vhC03_subconc_(2|3)$", preempt=2, samples=1), J("^vhC11_(share|conn)_K4$", samples=2, only_msgs="upstream subscription|source subscription"), J("^vhC12_overlap_L1$", samples=2, only_msgs="upstream subscription")], "thorough": [J("^vhC03_(sub_K4|cut_L3)$|^vhC03_multipanic$", samples=8), J("^vhC03_subconc_(2|3)$", preempt=0, samples=1), J("^vhC03_subconc_(2|3)$", preempt=3, samples=1), J("^vhC11_(share|conn)_K5$", samples=2, only_msgs="upstream subscription|source subscription"), J("^vhC12_overlap_L2$", samples=2, only_msgs="upstream subscription", maxpaths=1000000)], "bounds": {}, "assumptions": []},
     "C07": {"quick": [J("^vhC07_.*_L2$", samples=4), J("^vhC08_handoff_n(2|5)$", preempt=0, samples=1, only_msgs="lost or duplicated|terminal notification"), J("^vhC02_core_(2x2|3x1)$", preempt=0, samples=1, only_msgs="terminal notification was emitted"), J("^vhC05_multi_T3$", samples=1, only_msgs="differs from the reference")], "thorough": [J("^vhC07_.*_L3$", samples=8), J("^vhC08_handoff_n(3|5)$", preempt=1, samples=1, only_msgs="lost or duplicated|terminal notification", maxpaths=2000000)], "bounds": {}, "assumptions": []},
     "C09": {"quick": [J("^vhC09_.*_L2$|^vhC09_multi_T2$", samples=4), J("^vhC09_async_n2$", samples=3, timeshim=True), J("^vhC11_share_K4$", samples=2, only_msgs="context other than"), J("^vhC09_cancel_L2$", samples=2), J("^vhC07_core_L2$", samples=2, only_msgs="context")], "thorough": [J("^vhC09_.*_L3$|^vhC09_multi_T3$", samples=8), J("^vhC09_async_n3$", preempt=0, samples=3, timeshim=True), J("^vhC09_async_n2$", preempt=2, samples=3, timeshim=True, maxpaths=1500000), J("^vhC11_share_K5$", samples=2, only_msgs="context other than"), J("^vhC09_cancel_L3$", samples=2), J("^vhC07_core_L3$", samples=2, only_msgs="context")], "bounds": {}, "assumptions": []},
@@ -52,7 +52,7 @@ PROPS = {
                       J("^vhC17_(tochannel|fromchannel)_L2$|^vhC13_time_n1$", preempt=1, races=True, only_kinds=["race", "crash"], samples=2, maxpaths=600000, timeshim=True),
                       J("^vhC10_conc_|^vhC05_conc_v1$", preempt=0, races=True, only_kinds=["race", "crash"], samples=1, maxpaths=600000)],
             "thorough": [J("^vhC02_core_(2x2|3x1)$|^vhC06_wait_L2$|^vhC08_handoff_n3$", preempt=2, races=True, only_kinds=["race", "crash"], samples=2),
-                         J("^vhC17_(tochannel|fromchannel)_L2$|^vhC13_time_n2$", preempt=2, races=True, only_kinds=["race", "crash"], samples=2, maxpaths=3000000, timeshim=True),
+                         J("^vhC17_(tochannel|fromchannel)_L2$|^vhC13_time_n1$", preempt=2, races=True, only_kinds=["race", "crash"], samples=2, maxpaths=2000000, timeshim=True), J("^vhC13_time_n2$", preempt=1, races=True, only_kinds=["race", "crash"], samples=2, maxpaths=1500000, timeshim=True),
                          J("^vhC10_conc_|^vhC05_conc_v2$|^vhC11_conc", preempt=1, races=True, only_kinds=["race", "crash"], samples=1, maxpaths=3000000)], "bounds": {}, "assumptions": []},
     "C15": {"quick": [J("^vhC15_(retry|repeat|loop|chain)_A2$", samples=4), J("^vhC15_.*async_A2$", preempt=1, samples=2, maxpaths=600000)], "thorough": [J("^vhC15_(retry|repeat|loop|chain)_A(2|3)$", samples=8), J("^vhC15_.*async_A2$", preempt=2, samples=2, maxpaths=3000000)], "bounds": {}, "assumptions": []},
     "C16": {"quick": [J("^vhC16_.*2$", samples=2, timeshim=True), J("^vhC14_ctx_L1$", samples=2, timeshim=True, only_msgs="long after the subscription context")], "thorough": [J("^vhC16_(delay|timeout|throttle)_n3$|^vhC16_sample_n2$", samples=2, timeshim=True, solver_timeout_ms=60000, solver="z3-new"), J("^vhC16_interval_c2$", samples=2, timeshim=True, xcheck="z3-new", xrate=5)], "bounds": {}, "assumptions": []},
